@@ -257,6 +257,8 @@ pub struct FaultCfg {
     pub pad_pm: u64,
     pub lenlie_pm: u64,
     pub misdeliver_pm: u64,
+    /// vary IP header fields that must not matter (IPv4 flags/fragment bits, TOS, id; IPv6 class/flow)
+    pub ipvary_pm: u64,
     pub replay_pm: u64,
     pub reflect_pm: u64,
     pub drop_reply_pm: u64,
@@ -435,6 +437,7 @@ impl Plan {
             faults.pad_pm = on(rng, 35, 10, 200);
             faults.lenlie_pm = on(rng, 30, 5, 60) * m / 100;
             faults.misdeliver_pm = on(rng, 30, 5, 80);
+            faults.ipvary_pm = on(rng, 40, 10, 120);
             faults.replay_pm = on(rng, 40, 10, 100);
             faults.drop_reply_pm = on(rng, 40, 10, 200);
             faults.clock_jumps = on(rng, 40, 1, 3);
